@@ -449,6 +449,8 @@ func (r *runnableStep) Start(_ map[string]any, runID string, stageChangeHandler 
 		stageChangeHandler: stageChangeHandler,
 		logger:             r.logger,
 	}
+	// Count the run goroutine before it starts, so that a Close that overtakes it still waits for it.
+	rs.wg.Add(1)
 	go rs.run()
 	return rs, nil
 }
@@ -577,8 +579,8 @@ func (r *runningStep) ForceClose() error {
 	return r.Close()
 }
 
+// Note: Caller must add 1 to the waitgroup before calling.
 func (r *runningStep) run() {
-	r.wg.Add(1)
 	defer func() {
 		r.logger.Debugf("foreach run function done")
 		r.wg.Done()
